@@ -43,6 +43,21 @@ checks = {
    technique="exhaustive enumeration of client API calls (every count 1..2000 / 1..125 at an address alphabet, single writes + read back, 65 537 consecutive TCP transactions) on the real Client <-> real Server.Listen over in-memory RTU and TCP transports, against the reference register file; every single-byte substitution/truncation/transaction-id mutation of responses; all 2^32 values through the converters (thorough)",
    text="The values and the number of values returned by every call equal the reference content; illegal reads never return data; mutated frames are rejected or yield exactly the true data; converters are exact inverses bit for bit.",
    note="In-memory transports (packet pipe / net.Pipe) stand in for serial port and socket; the client API has no multi-write, so only the six calls it offers are driven."),
+ "C01": dict(
+   category="model_checking", design_ref="DESIGN.md §3 C01",
+   technique="stateless model checking of the real store: exhaustive DFS over choice sequences (point lists x all permutations x all batch compositions x one re-delivery) executed on a fresh real SQLite store over a deterministic in-process bus, reference model newest-timestamp-wins checked after every delivery",
+   text="Every delivery schedule of every point list up to 3 (thorough 4) points over identities built around the shortcuts in the code (key \"\" vs \"0\", type+key concatenation collisions), for node points and edge points, is executed through the real NATS handlers; the read-back must hold exactly the newest delivered point per identity with all fields.",
+   note="Bus = in-process stand-in for nats.go (inline mode: one global FIFO, a schedule real NATS can produce). Alphabets, not all strings/floats. 16 single-threaded shard processes."),
+ "C03": dict(
+   category="model_checking", design_ref="DESIGN.md §3 C03",
+   technique="explicit-state search over write histories on the real store (state = store content + remaining depth, revisits pruned), with an independent Merkle recomputation, a cross-history differential (equal content => equal hashes) and storeMaint-changes-nothing evaluated in every state",
+   text="From 4 seed states (empty, diamond, deleted mirror, detached populated subtree) all histories of 3/2 (thorough 4/3) operations over 44 operations (points new/newer/stale/duplicate, tombstone set/clear, edge points, on the 6 forward edges among root,A,B,C) are executed; after every operation every edge hash is recomputed from the replies by the harness's own CRC/XOR code.",
+   note="Cyclic edges excluded (C05). Hash definition taken from docs/ref/sync.md and the property text."),
+ "C05": dict(
+   category="model_checking", design_ref="DESIGN.md §3 C05",
+   technique="explicit-state search over graph states of the real store; in every state the complete menu of must-be-refused requests (self edge, root tombstone, missing node type, every cycle-closing edge through live or deleted edges, NaN at every batch position) is executed and followed by a full snapshot comparison and a spy on up.>; crashes/hangs are isolated by re-running the sequence 5x in separate processes",
+   text="All graph states reachable by 2 (thorough 3) legal writes over the 9 directed edges among root,A,B,C (live or deleted) and node points; every refused request must answer with an error, leave the complete observable state (points, hashes) unchanged, publish nothing on up.>, and the instance must answer a follow-up write and read.",
+   note="Reference graph decides refused/accepted (cycle = parent==child or child is an ancestor of parent through any edge)."),
 }
 pending_reason = "check not built yet in this round (planned in DESIGN.md §3); not claimed until its harness exists"
 m = {
@@ -51,7 +66,7 @@ m = {
  "hooks": {
    "guard": "verif",
    "enable": "no source hooks: instrumentation is injected with `go build/test -overlay` and a `replace` of github.com/nats-io/nats.go in the harness module; /repo is built as-is",
-   "baseline_off_cmd": "cd /repo && GOFLAGS=-mod=mod go test -vet=off -count=1 ./...",
+   "baseline_off_cmd": "cd /repo && GOFLAGS=-mod=mod go test -p 1 -vet=off -count=1 ./...",
    "source_commits": [],
    "add_only": True,
  },
